@@ -77,6 +77,15 @@ pub fn run(rep: &Report) -> i32 {
         let fam = &fams[job.fam].1;
         drive::DUMMY.with(|env| check_term(rep, &job.expr, &job.ty, &fam.universe, &fns[job.fam], env, &forms, &seen));
     });
+    // deep environments: n live bindings, every one of them read back (flat blocks, nested blocks, tuple patterns)
+    let deep = deep_env_terms(rep.is_quick());
+    rep.set("deep_environment_programs", json!(deep.len()));
+    rep.transition(deep.len() as u64);
+    let no_fns = BTreeMap::new();
+    let uni = gen::universe_a();
+    par_for(&deep, rep, 4, |_, (e, ty)| {
+        drive::DUMMY.with(|env| check_term(rep, e, ty, &uni, &no_fns, env, &forms, &seen));
+    });
     let forms = forms.into_inner().unwrap();
     rep.set("forms_covered", json!(forms.iter().collect::<Vec<_>>()));
     const REQUIRED: [&str; 30] = [
@@ -95,6 +104,52 @@ pub fn run(rep: &Report) -> i32 {
         &["simplicity-lang 0.4.0 decoder / Bit Machine / jets are trusted", "reference evaluator R2 and layout R3 (harness) are correct", "small-scope: terms up to the stated depth over the stated universes"],
         true,
     )
+}
+
+/// Terms whose value is one variable of a scope with `n` live bindings. Binding 0 and binding n/2 are
+/// initialised from the free family variables, the others from distinct literals, so that reading the wrong
+/// binding is visible. Shapes: one flat block; one block nested per binding; bindings made by tuple patterns.
+pub fn deep_env_terms(quick: bool) -> Vec<(Expr, Ty)> {
+    let flat: &[usize] = if quick { &[4, 31, 32, 33, 65] } else { &[4, 16, 31, 32, 33, 40, 63, 64, 65, 100, 127, 128, 129, 200, 255, 256, 257] };
+    // (parse time doubles with every nested block level, so nesting stays within the depth 12 of C06)
+    let nested: &[usize] = if quick { &[4, 8] } else { &[4, 8, 12] };
+    let u8t = Ty::U(8);
+    let u16t = Ty::U(16);
+    let init = |i: usize, n: usize| -> Expr {
+        if i == 0 {
+            var(&gen::var_name(&Ty::U(8), 0))
+        } else if i == n / 2 {
+            var(&gen::var_name(&Ty::U(8), 1))
+        } else {
+            dec(((i * 7 + 3) % 256) as u128)
+        }
+    };
+    let mut out = vec![];
+    for &n in flat {
+        // flat block, all u8
+        let stmts: Vec<Stmt> = (0..n).map(|i| let_(Pat::id(&format!("v{i}")), u8t.clone(), init(i, n))).collect();
+        for k in 0..n {
+            out.push((block(stmts.clone(), Some(var(&format!("v{k}")))), u8t.clone()));
+        }
+        // tuple patterns: two names per statement, of different types
+        let stmts: Vec<Stmt> = (0..n / 2)
+            .map(|i| let_(Pat::Tuple(vec![Pat::id(&format!("v{i}")), Pat::id(&format!("w{i}"))]), Ty::tup(vec![u8t.clone(), u16t.clone()]), Expr::Tuple(vec![init(i, n / 2), dec((1000 + i * 13) as u128)])))
+            .collect();
+        for k in 0..n / 2 {
+            out.push((block(stmts.clone(), Some(var(&format!("v{k}")))), u8t.clone()));
+            out.push((block(stmts.clone(), Some(var(&format!("w{k}")))), u16t.clone()));
+        }
+    }
+    for &n in nested {
+        for k in 0..n {
+            let mut e = var(&format!("v{k}"));
+            for i in (0..n).rev() {
+                e = block(vec![let_(Pat::id(&format!("v{i}")), u8t.clone(), init(i, n))], Some(e));
+            }
+            out.push((e, u8t.clone()));
+        }
+    }
+    out
 }
 
 fn run_json(text: &str, witness: &[(String, Val, Ty)], debug: bool, expect: &str, observed: &str) -> serde_json::Value {
